@@ -25,7 +25,7 @@ class History:
     """A real Problem + Models and the operations to drive it."""
 
     def __init__(self, rng, n=None, npt=None, mc_ub=None, mc_eq=None,
-                 radius=1.0):
+                 radius=1.0, box=None):
         from scipy.optimize import Bounds, NonlinearConstraint
         from cobyqa import models as M
         from cobyqa.problem import (ObjectiveFunction, BoundConstraints,
@@ -49,9 +49,23 @@ class History:
             cons.append(NonlinearConstraint(
                 (lambda i: (lambda x: f(x, i)))(i), 0.0, 0.0))
         x0 = rng.standard_normal(n)
+        box = bool(rng.random() < 0.25) if box is None else box
+        xl = np.full(n, -np.inf)
+        xu = np.full(n, np.inf)
+        if box:
+            # finite bounds with x0 on / near some of them: the initial
+            # interpolation set is then NOT symmetric about the base point
+            for i in range(n):
+                dl = float(rng.choice([0.0, 0.25, 0.6, 3.0, np.inf]))
+                du = float(rng.choice([0.0, 0.25, 0.6, 3.0, np.inf]))
+                if dl + du < 2.2:
+                    du = 2.2 - dl + float(rng.random())
+                xl[i] = x0[i] - dl * float(radius)
+                xu[i] = x0[i] + du * float(radius)
+        self.box = box
         self.pb = Problem(
             ObjectiveFunction(lambda x: f(x, 0), False, False), x0,
-            BoundConstraints(Bounds(np.full(n, -np.inf), np.full(n, np.inf))),
+            BoundConstraints(Bounds(xl, xu)),
             LinearConstraints([], n, False),
             NonlinearConstraints(cons, False, False), None, 1e-8, False,
             False, 1, 10**9, False)
